@@ -7,7 +7,7 @@ E2 `fetch`: explicit-state search over fetch histories with urlopen replaced by 
 import itertools
 from io import BytesIO
 
-from mc.core import Engine, Res, attempt, Rejected, filler
+from mc.core import Engine, Res, attempt, Rejected, filler, filler_int
 from mc.ref import txref
 
 PROP = "C04"
@@ -21,7 +21,16 @@ def item_bytes(it):
 
 
 def items_to_cmds(items):
-    return [it if isinstance(it, int) else item_bytes(it) for it in items]
+    """ints are opcode bytes, [n, b] / hex strings are pushed data, {"op": o, "n": k} is opcode o repeated k times."""
+    out = []
+    for it in items:
+        if isinstance(it, dict):
+            out += [it["op"]] * it["n"]
+        elif isinstance(it, int):
+            out.append(it)
+        else:
+            out.append(item_bytes(it))
+    return out
 
 
 def to_abstract(d):
@@ -80,6 +89,7 @@ def base_segwit(seed):
 
 
 PUSH_PAIR = [0, 1, 74, 75, 76, 255, 256, 520]
+NOPS_LENS = [252, 253, 254, 65535, 65536, 70000]
 OPCODES = [0] + list(range(79, 256))  # every non-push opcode byte
 
 
@@ -95,6 +105,8 @@ def script_alphabet(full):
         out += [(f"op{o}+push{n}", [o, [n, 0x3C]]) for o in OPCODES for n in (20, 32)]
         out += [(f"op{o}+push{n}", [o, [n, 0x3C]]) for o in [0] + list(range(0x51, 0x61)) for n in range(2, 41) if n not in (20, 32)]
         out += [(f"push{n}+op{o}", [[n, 0x3C], o]) for o in (0x87, 0x88, 0xAC, 0xAE) for n in (20, 32, 33)]
+        # opcode-only scripts whose LENGTH crosses the 0xfd and 0xfe varint widths (no push involved)
+        out += [(f"nops{n}", [{"op": 0x61, "n": n}]) for n in NOPS_LENS]
     else:
         out += [(f"push{n}", [[n, 0x5A]]) for n in (0, 1, 74, 75, 76, 77, 255, 256, 520)]
         out += [("op0", [0]), ("op255", [255]), ("op81+push75", [81, [75, 1]])]
@@ -117,6 +129,12 @@ def witness_alphabet(full):
                 continue
             out.append((f"wit{c}x{ln}", [[ln, 0x77]] * c))
     out.append(("wit-mixed", [[0, 0], [1, 1], [253, 2], [70000, 3]]))
+    if full:
+        # one stack holding every item length 0..599, the four-byte-length boundary next to empty items, and the
+        # count boundary 252/253 with items above the 0xfd length boundary (excluded from the grid above)
+        out.append(("wit-alllens0..599", [[n, n & 0xFF] for n in range(600)]))
+        out.append(("wit-65535+65536+0+70000", [[65535, 1], [65536, 2], [0, 0], [70000, 3]]))
+        out += [(f"wit{c}x{ln}", [[ln, 0x77]] * c) for c in (252, 253) for ln in (254, 1000)]
     return out
 
 
@@ -145,7 +163,7 @@ def field_alphabets(base, full):
         for nm, s in script_alphabet(full and i == 0):
             devs.append((f"in{i}.script", f"in{i}.script={nm}", lambda d, i=i, s=s: d["ins"][i].__setitem__(2, s)))
         if base["sw"]:
-            for nm, w in witness_alphabet(full and i == 0):
+            for nm, w in witness_alphabet(full):
                 devs.append((f"in{i}.wit", f"in{i}.wit={nm}", lambda d, i=i, w=w: d["ins"][i].__setitem__(4, w)))
     for o in range(nout):
         for v in (0, 1, 2**32 - 1, 2**32, 21 * 10**14, 2**63 - 1, 2**63, 2**64 - 1):
@@ -169,6 +187,16 @@ def field_alphabets(base, full):
     for n in list(range(0, 6)) + list(range(250, 257)) + [300]:
         devs.append(("nin", f"nin={n}", set_nin(n)))
         devs.append(("nout", f"nout={n}", set_nout(n)))
+    if base["sw"] and full:
+
+        def set_nin_varied(n):
+            def f(d):
+                d["ins"] = [[f"{k:064x}", k % 7, [], 0xFFFFFFFF - k, [[(k * 37) % 300, k & 0xFF]] * (1 + k % 4) + [[k % 3, 1]]] for k in range(n)]
+
+            return f
+
+        for n in (3, 253, 300):
+            devs.append(("nin", f"nin={n}-varied-witness", set_nin_varied(n)))
     return devs
 
 
@@ -294,6 +322,22 @@ def run_codec(case):
         res.violation(f"C04/codec/parsed-id/{devs}", vc, pid, rid, "id() of parsed tx wrong")
     else:
         res.ok("parsed-id==ref")
+    # stream discipline: the same bytes at a non-zero stream offset, followed by another transaction and a sentinel.
+    # Tx.parse must consume exactly this transaction's bytes (short reads decode silently, so an over-read is
+    # invisible when the buffer ends with the transaction) and leave the stream at the start of the next one.
+    other = txref.ser_tx(to_abstract(base_segwit(0) if case["base"] == "legacy" else base_legacy(0)))
+    s = BytesIO(b"\x99" * 7 + ref + other + b"\xee" * 5)
+    s.read(7)
+    t1 = attempt(Tx.parse, s)
+    p1 = attempt(s.tell)
+    t2 = attempt(Tx.parse, s)
+    p2 = attempt(s.tell)
+    if (p1, p2) != (7 + len(ref), 7 + len(ref) + len(other)):
+        res.violation(f"C04/codec/stream/position", vc, [p1, p2], [7 + len(ref), 7 + len(ref) + len(other)], "Tx.parse does not consume exactly the bytes of the transaction (stream position after parsing two concatenated transactions at offset 7)")
+    elif isinstance(t1, Rejected) or isinstance(t2, Rejected) or attempt(t1.serialize) != ref or attempt(t2.serialize) != other:
+        res.violation(f"C04/codec/stream/content", vc, repr(t1)[:80], "both transactions re-serialise to their bytes", "transactions parsed back to back from one stream (offset 7) do not reproduce their bytes")
+    else:
+        res.ok("stream-position+concatenated")
     # id must ignore witness data and depend on everything else
     if ab["segwit"]:
         stripped = dict(ab, segwit=False)
@@ -321,9 +365,56 @@ def fetch_world(seed):
     return {"legacy": legacy, "segwit": seg, "nonmin": nonmin, "nonmin_out": nonmin_out, "seg_altwit": seg_altwit}
 
 
+def ser_tx_overlong(tx, which, width):
+    """Reference wire bytes of `tx` with its `which`-th compact size (wire order) written over-long with the marker
+    byte `width` ("fd" | "fe" | "ff"). Returns (bytes or None when that width is not over-long for the value,
+    number of compact sizes in the transaction)."""
+    import struct
+
+    ctr = [0]
+    hit = [False]
+
+    def cs(n):
+        i = ctr[0]
+        ctr[0] += 1
+        if i != which:
+            return txref.compact(n)
+        fmt, limit = {"fd": ("<H", 0xFD), "fe": ("<I", 0x10000), "ff": ("<Q", 0x100000000)}[width]
+        if n >= limit:
+            return txref.compact(n)  # this width would be minimal (or too narrow): not an over-long encoding
+        hit[0] = True
+        return bytes.fromhex(width) + struct.pack(fmt, n)
+
+    def vb(b):
+        return cs(len(b)) + b
+
+    out = struct.pack("<I", tx["version"]) + (b"\x00\x01" if tx.get("segwit") else b"")
+    out += cs(len(tx["ins"]))
+    for i in tx["ins"]:
+        out += i["prev"][::-1] + struct.pack("<I", i["index"]) + vb(i["script"]) + struct.pack("<I", i["seq"])
+    out += cs(len(tx["outs"]))
+    for o in tx["outs"]:
+        out += struct.pack("<Q", o["amount"]) + vb(o["script"])
+    if tx.get("segwit"):
+        for i in tx["ins"]:
+            out += cs(len(i["witness"])) + b"".join(vb(x) for x in i["witness"])
+    out += struct.pack("<I", tx["locktime"])
+    return (out if hit[0] else None), ctr[0]
+
+
 def response_bytes(world, rid_name, kind):
     w = world
     honest = txref.ser_tx(w[rid_name])
+    if kind == "ws":  # hex text with blanks between the bytes (bytes.fromhex tolerates it)
+        return " ".join(f"{b:02x}" for b in honest).encode()
+    if kind.startswith("trunc:"):  # the last k bytes are missing
+        return honest[: len(honest) - int(kind.split(":")[1])].hex().encode()
+    if kind.startswith("overlong:"):  # one compact size written with a longer width than necessary
+        _, which, width = kind.split(":")
+        b, _n = ser_tx_overlong(w[rid_name], int(which), width)
+        return (b if b is not None else honest).hex().encode()
+    if kind == "trailing-resp":  # same bytes as "trailing"; separate name for the response-digest requests
+        return (honest + b"\x00\x01\x02").hex().encode()
     if kind == "honest":
         return honest.hex().encode()
     if kind == "honest-nl":
@@ -353,9 +444,11 @@ def response_bytes(world, rid_name, kind):
     raise ValueError(kind)
 
 
-def requested_id(world, rid_name, how):
+def requested_id(world, rid_name, how, resp=None):
     """The id asked for: the transaction's txid, or (how != "") another digest of the bytes the honest server
-    returns for it — a caller may ask for anything, the fetcher must never hand back a Tx with a different id()."""
+    returns for it — a caller may ask for anything, the fetcher must never hand back a Tx with a different id().
+    how = "resp-dsha-rev" / "resp-dsha": the double-SHA256 (display order / raw order) of the bytes the server
+    actually answers with (`resp`, the hex text), whatever they are."""
     import hashlib
 
     t = world[rid_name]
@@ -363,6 +456,12 @@ def requested_id(world, rid_name, how):
     d = lambda b: hashlib.sha256(hashlib.sha256(b).digest()).digest()
     if how == "":
         return txref.txid(t)
+    if how.startswith("resp-"):
+        try:
+            raw = bytes.fromhex(resp.decode().strip())
+        except ValueError:
+            return txref.txid(t)
+        return d(raw)[::-1].hex() if how == "resp-dsha-rev" else d(raw).hex()
     return {
         "wtxid": d(full)[::-1].hex(),
         "wtxid-unreversed": d(full).hex(),
@@ -401,8 +500,8 @@ def do_fetch_history(world, hist):
     try:
         for rid_name, kind, fresh in hist:
             rid_name, _, how = rid_name.partition("@")
-            rid = requested_id(world, rid_name, how)
             cur["resp"] = response_bytes(world, rid_name, kind)
+            rid = requested_id(world, rid_name, how, cur["resp"])
             r = attempt(btx.TxFetcher.fetch, rid, "mainnet", fresh)
             if isinstance(r, Rejected):
                 obs.append(("raised", r.how))
@@ -430,6 +529,21 @@ def gen_fetch(tier, seed):
             for k in ("honest", "honest-nl", "stripped", "altwit"):
                 cases.append({"hist": [[f"{rid_name}@{how}", k, False]]})
                 cases.append({"hist": [[rid_name, "honest", False], [f"{rid_name}@{how}", k, False]]})
+        # answers that are NOT the canonical encoding of what they parse to (trailing bytes, every truncation of the
+        # tail, every compact size written over-long with every longer width, blanks in the hex text), requested by
+        # the true txid and by the double-SHA256 of exactly those answer bytes (both byte orders)
+        ncs = ser_tx_overlong(world[rid_name], -1, "fd")[1]
+        odd = ["trailing-resp", "ws", "honest", "stripped"] + [f"trunc:{k}" for k in range(1, n)]
+        odd += [f"overlong:{i}:{wd}" for i in range(ncs) for wd in ("fd", "fe", "ff") if ser_tx_overlong(world[rid_name], i, wd)[0] is not None]
+        for k in odd:
+            for how in ("", "resp-dsha-rev", "resp-dsha"):
+                who = f"{rid_name}@{how}" if how else rid_name
+                if how or k not in ("honest", "stripped"):
+                    cases.append({"hist": [[who, k, False]]})
+        for k in ("trailing-resp", "trunc:1", "trunc:4", "overlong:0:fd", "overlong:1:ff"):
+            for fresh in (False, True):
+                cases.append({"hist": [[rid_name, "honest", False], [f"{rid_name}@resp-dsha-rev", k, fresh]]})
+                cases.append({"hist": [[f"{rid_name}@resp-dsha-rev", k, fresh], [rid_name, "honest", False]]})
     # histories of depth 2..3 over a small alphabet, on one shared cache
     small = [(r, k, f) for r in ("legacy", "segwit", "nonmin") for k in ("honest", "other", "mut:5:1", "altwit") for f in (False, True)]
     depth = 3
@@ -460,7 +574,7 @@ def run_fetch(case):
         rid_name, kind, fresh = hist[step]
         rid_name, _, how = rid_name.partition("@")
         honest = response_bytes(world, rid_name, kind).strip().lower() == response_bytes(world, rid_name, "honest")
-        cls = f"{rid_name}/asked-for-{how}" if how and how != "upper" else f"{rid_name}-honest" if honest else f"{rid_name}/{kind.split(':')[0]}"
+        cls = f"resp-digest/{kind.split(':')[0]}" if how.startswith("resp-") else f"{rid_name}/asked-for-{how}" if how and how != "upper" else f"{rid_name}-honest" if honest else f"{rid_name}/{kind.split(':')[0]}"
         res.violation(
             f"C04/fetch/{cls}",
             {"engine": "fetch", "case": case},
@@ -603,6 +717,585 @@ def run_idhist(case):
     return res
 
 
+# ---------------------------------------------------------------- script command sequences (E1)
+SEQ_OPS = [0, 0x4F, 0x51, 0x60, 0x61, 0x6A, 0x76, 0x87, 0x88, 0xA9, 0xAC, 0xAE, 0xB1, 0xBA, 0xFF]
+SEQ_PUSH = [[n, 0x5A] for n in (1, 2, 20, 32, 33, 75, 76, 255, 256, 520)] + ["00", "01", "10", "81", "4c", "4d", "4e"]
+SEQ_ALPHA = SEQ_OPS + SEQ_PUSH  # 32 commands: opcodes (incl. OP_0, OP_1NEGATE, OP_1, OP_16, 0xff) and minimal pushes
+KIND_RANK = ["op", "push1-75", "push76-255", "push256-520"]
+SEQ_PLACES = ["in0+out1", "in1+out0"]
+
+
+def item_kind(it):
+    if isinstance(it, int):
+        return "op"
+    n = len(item_bytes(it))
+    return "push1-75" if n <= 75 else "push76-255" if n <= 255 else "push256-520"
+
+
+def seq_class(items):
+    """coarse class of a command sequence: its widest push encoding"""
+    return max((item_kind(i) for i in items), key=KIND_RANK.index)
+
+
+def gen_scriptseq(tier, seed):
+    return [{"first": i, "place": p, "maxlen": 3} for i in range(len(SEQ_ALPHA)) for p in SEQ_PLACES]
+
+
+def seq_descriptor(place, items):
+    import copy
+
+    d = copy.deepcopy(base_segwit(0))
+    if place == "in0+out1":
+        d["ins"][0][2] = items
+        d["outs"][1][1] = items
+    else:
+        d["ins"][1][2] = items
+        d["outs"][0][1] = items
+    return d
+
+
+def codec_compare(d, ab):
+    """None when build/serialize/id/parse/fields/reserialize/parsed-id/position all equal the reference, else
+    (check name, observed, expected)."""
+    from buidl.tx import Tx
+
+    ref, rid = txref.ser_tx(ab), txref.txid(ab)
+    if d is not None:
+        tx = attempt(build_via_api, d)
+        if isinstance(tx, Rejected):
+            return ("build", repr(tx), "constructible")
+        if attempt(tx.serialize) != ref:
+            return ("serialize", repr(attempt(tx.serialize))[:160], ref.hex()[:160])
+        if attempt(tx.id) != rid:
+            return ("id", attempt(tx.id), rid)
+    s = BytesIO(ref + b"\xee" * 9)
+    ptx = attempt(Tx.parse, s)
+    if isinstance(ptx, Rejected):
+        return ("parse", repr(ptx), "parses")
+    if attempt(fields_of, ptx) != ab:
+        return ("parse-fields", str(attempt(fields_of, ptx))[:200], str(ab)[:200])
+    if attempt(ptx.serialize) != ref:
+        return ("reserialize", repr(attempt(ptx.serialize))[:160], ref.hex()[:160])
+    if attempt(ptx.id) != rid:
+        return ("parsed-id", attempt(ptx.id), rid)
+    if s.tell() != len(ref):
+        return ("position", s.tell(), len(ref))
+    return None
+
+
+def run_scriptseq(case):
+    res = Res()
+    first = SEQ_ALPHA[case["first"]]
+    tails = [()]
+    for L in range(1, case["maxlen"]):
+        tails += list(itertools.product(SEQ_ALPHA, repeat=L))
+    if case.get("replay") is not None:
+        tails = [tuple(case["replay"])]
+    # control: the same transaction with EMPTY scripts in those places; a failure here has nothing to do with the
+    # sequence alphabet and gets one fingerprint instead of one per script class
+    d0 = seq_descriptor(case["place"], [])
+    bad = codec_compare(d0, to_abstract(d0))
+    if bad:
+        res.violation(f"C04/scriptseq/{bad[0]}/independent-of-script", {"engine": "scriptseq", "case": dict(case, replay=None)}, bad[1], bad[2], f"control transaction (empty scripts at {case['place']}): {bad[0]} differs from the reference wire codec")
+        return res
+    n_ok = 0
+    for tail in tails:
+        items = [first] + list(tail)
+        d = seq_descriptor(case["place"], items)
+        bad = codec_compare(d, to_abstract(d))
+        if bad:
+            vc = {"engine": "scriptseq", "case": dict({k: v for k, v in case.items() if k != "replay"}, replay=list(tail))}
+            res.violation(f"C04/scriptseq/{bad[0]}/{seq_class(items)}", vc, bad[1], bad[2], f"script {items} at {case['place']}: {bad[0]} differs from the reference wire codec")
+        else:
+            n_ok += 1
+    res.bulk("sequence: build/serialize/id/parse/fields/reserialize/position==ref", n_ok, n_ok)
+    return res
+
+
+# ---------------------------------------------------------------- arbitrary script bytes inside a canonical transaction (E1)
+RAW_WHERE = ["coinbase-in", "out", "segwit-in"]
+RAW_PUSH_FIRST = [1, 2, 3, 4, 5, 0x4B, 0x4C, 0x4D, 0x4E]
+
+
+def raw_shape(raw):
+    """Class of a script byte string by an independent tokenizer: truncated (a push runs past the end) > oversize (push
+    of more than 520 bytes) > nonminimal (PUSHDATA with a length a shorter form could carry) > canonical."""
+    i, n = 0, len(raw)
+    nonmin = oversize = False
+    while i < n:
+        b = raw[i]
+        i += 1
+        if 1 <= b <= 75:
+            ln = b
+        elif b in (76, 77, 78):
+            w = {76: 1, 77: 2, 78: 4}[b]
+            if i + w > n:
+                return "truncated"
+            ln = int.from_bytes(raw[i : i + w], "little")
+            i += w
+            if (b == 76 and ln < 76) or (b == 77 and ln < 256) or (b == 78 and ln < 65536):
+                nonmin = True
+        else:
+            continue
+        if i + ln > n:
+            return "truncated"
+        if ln > 520:
+            oversize = True
+        i += ln
+    return "oversize" if oversize else "nonminimal" if nonmin else "canonical"
+
+
+def raw_scripts(case, tier):
+    a = case["first"]
+    if a == "templates":
+        h20, h32 = b"\x11" * 20, b"\x22" * 32
+        for pfx, body, sfx in ((b"\x76\xa9", h20, b"\x88\xac"), (b"\xa9", h20, b"\x87"), (b"\x00", h20, b""), (b"\x00", h32, b""), (b"\x51", h32, b"")):
+            L = len(body)
+            for enc in (bytes([L]), b"\x4c" + bytes([L]), b"\x4d" + L.to_bytes(2, "little"), b"\x4e" + L.to_bytes(4, "little")):
+                yield pfx + enc + body + sfx
+                yield pfx + enc + body[:-1] + sfx  # one byte short: the following opcode is swallowed / push truncated
+        for n in (521, 522, 65535, 65536):  # pushes above the 520-byte element limit (legal on the wire)
+            yield txref.push(b"\x5a" * n)
+            yield b"\x51" + txref.push(b"\x5a" * n) + b"\x51"
+        return
+    yield bytes([a])
+    for b in range(256):
+        yield bytes([a, b])
+    if a in RAW_PUSH_FIRST:
+        for t in itertools.product((0, 1, 2, 3, 0x4C, 0xFF), repeat=3):
+            yield bytes([a]) + bytes(t)
+        for t in itertools.product((0, 1, 2, 0xFF), repeat=5):
+            yield bytes([a]) + bytes(t)
+    if tier == "thorough" and 1 <= a <= 78:
+        for b in range(256):
+            for c in range(256):
+                yield bytes([a, b, c])
+
+
+def gen_rawscript(tier, seed):
+    cases = [{"first": a, "where": w, "tier": tier} for a in range(256) for w in RAW_WHERE]
+    cases += [{"first": "templates", "where": w, "tier": tier} for w in RAW_WHERE]
+    return cases
+
+
+def raw_tx(where, raw):
+    if where == "coinbase-in":
+        return {"version": 1, "locktime": 0, "segwit": False, "ins": [{"prev": b"\x00" * 32, "index": 0xFFFFFFFF, "script": raw, "seq": 0xFFFFFFFF, "witness": []}], "outs": [{"amount": 5000000000, "script": b"\x51"}]}
+    if where == "out":
+        return {"version": 2, "locktime": 3, "segwit": False, "ins": [{"prev": b"\x37" * 32, "index": 1, "script": b"\x51", "seq": 0xFFFFFFFE, "witness": []}], "outs": [{"amount": 546, "script": raw}, {"amount": 1, "script": b"\x6a"}]}
+    return {
+        "version": 2, "locktime": 0, "segwit": True,
+        "ins": [{"prev": b"\x38" * 32, "index": 0, "script": b"", "seq": 0xFFFFFFFF, "witness": [b"\x01"]}, {"prev": b"\x39" * 32, "index": 2, "script": raw, "seq": 0, "witness": [b"", b"\x02\x03"]}],
+        "outs": [{"amount": 7, "script": b"\x00\x14" + b"\x11" * 20}],
+    }  # fmt: skip
+
+
+def run_rawscript(case):
+    res = Res()
+    scripts = [bytes.fromhex(case["replay"])] if case.get("replay") is not None else raw_scripts(case, case.get("tier", "quick"))
+    # control: the same transaction with the one-opcode script 0x51 in that place (see run_scriptseq)
+    ab0 = raw_tx(case["where"], b"\x51")
+    bad = codec_compare(None, ab0)
+    if bad:
+        res.violation(f"C04/rawscript/{bad[0]}/independent-of-script", {"engine": "rawscript", "case": dict({k: v for k, v in case.items() if k != "replay"}, replay="51")}, bad[1], bad[2], f"control transaction ({case['where']} script 0x51): {bad[0]} differs")
+        return res
+    n_ok = n_nt = 0
+    for raw in scripts:
+        ab = raw_tx(case["where"], raw)
+        shape = raw_shape(raw)
+        bad = codec_compare(None, ab)
+        if bad:
+            vc = {"engine": "rawscript", "case": dict({k: v for k, v in case.items() if k != "replay"}, replay=raw.hex())}
+            res.violation(f"C04/rawscript/{bad[0]}/{shape}", vc, bad[1], bad[2], f"canonically encoded transaction whose {case['where']} script is the {shape} byte string {raw.hex()[:60]}: {bad[0]} differs")
+        else:
+            n_ok += 1
+            n_nt += shape != "canonical"
+    res.bulk("raw script: parse/fields/reserialize/id/position==ref", n_ok, n_ok)
+    res.notes["raw_scripts_not_canonical"] = n_nt
+    return res
+
+
+# ---------------------------------------------------------------- compact-size helpers directly (E1)
+VARINT_EDGES = [0xFC, 0xFD, 0xFFFF, 0x10000, 2**24, 2**31, 2**32 - 1, 2**32, 2**33, 2**48, 2**56, 2**63, 2**64 - 1]
+
+
+def width_of(v):
+    return "1" if v < 0xFD else "fd" if v <= 0xFFFF else "fe" if v <= 0xFFFFFFFF else "ff" if v < 2**64 else "overflow"
+
+
+def gen_varint(tier, seed):
+    cases = [{"range": [lo, min(lo + 2048, 0x10200)]} for lo in range(0, 0x10200, 2048)]
+    vals = sorted({e + dlt for e in VARINT_EDGES for dlt in (-2, -1, 0, 1, 2) if 0 <= e + dlt < 2**64})
+    cases.append({"values": [str(v) for v in vals]})
+    cases.append({"values": [str(filler_int(seed, "varint", i, 1 << (8 * k), (1 << (8 * k + 8)) - 1)) for k in range(1, 8) for i in range(4)]})
+    cases.append({"overflow": [str(2**64), str(2**64 + 1), str(2**72)]})
+    cases.append({"varstr": list(range(0, 601)) + [0xFFFF, 0x10000, 70000]})
+    return cases
+
+
+def run_varint(case):
+    from buidl.helper import encode_varint, encode_varstr, read_varint, read_varstr
+
+    res = Res()
+    vc = {"engine": "varint", "case": case}
+    if "overflow" in case:
+        for v in map(int, case["overflow"]):
+            e = attempt(encode_varint, v)
+            if not isinstance(e, Rejected):
+                res.violation("C04/varint/encode/overflow", vc, repr(e), "rejected", f"encode_varint({v}) returns bytes although no compact size can carry the value")
+            else:
+                res.ok("overflow rejected", ("ovf", v))
+        return res
+    if "varstr" in case:
+        for n in case["varstr"]:
+            b = bytes([n & 0xFF]) * n
+            e = attempt(encode_varstr, b)
+            s = BytesIO(b"\x99" * 3 + txref.varbytes(b) + b"\xee\xee")
+            s.read(3)
+            back = attempt(read_varstr, s)
+            if e != txref.varbytes(b):
+                res.violation(f"C04/varint/varstr-encode/{width_of(n)}", vc, repr(e)[:80], txref.varbytes(b)[:12].hex(), f"encode_varstr of {n} bytes")
+            elif back != b or s.tell() != 3 + len(txref.varbytes(b)):
+                res.violation(f"C04/varint/varstr-decode/{width_of(n)}", vc, [repr(back)[:60], s.tell()], [n, 3 + len(txref.varbytes(b))], f"read_varstr of {n} bytes (value / stream position)")
+            else:
+                res.ok("varstr==ref", ("vs", n))
+        return res
+    vals = range(*case["range"]) if "range" in case else [int(v) for v in case["values"]]
+    n_ok = 0
+    for v in vals:
+        ref = txref.compact(v)
+        e = attempt(encode_varint, v)
+        if e != ref:
+            res.violation(f"C04/varint/encode/{width_of(v)}", vc, repr(e), ref.hex(), f"encode_varint({v})")
+            continue
+        s = BytesIO(b"\x99" * 2 + ref + b"\x01\x02\x03\x04\x05\x06\x07\x08\x09")
+        s.read(2)
+        back = attempt(read_varint, s)
+        if back != v:
+            res.violation(f"C04/varint/decode/{width_of(v)}", vc, repr(back), v, f"read_varint of the canonical encoding of {v}")
+        elif s.tell() != 2 + len(ref):
+            res.violation(f"C04/varint/position/{width_of(v)}", vc, s.tell(), 2 + len(ref), f"read_varint({ref.hex()}) leaves the stream at the wrong position")
+        else:
+            n_ok += 1
+    res.bulk("varint encode/decode/position==ref", n_ok, n_ok)
+    return res
+
+
+# ---------------------------------------------------------------- alternative entry points (E1)
+def gen_entry(tier, seed):
+    import copy
+
+    cases = []
+    for bname, base in (("legacy", base_legacy(seed)), ("segwit", base_segwit(seed))):
+        cases.append({"base": bname, "devs": [], "d": base})
+        for fld, nm, mut in field_alphabets(base, False):
+            d = copy.deepcopy(base)
+            mut(d)
+            cases.append({"base": bname, "devs": [nm], "d": d})
+    # everything at its documented constructor default
+    cases.append({"base": "defaults", "devs": ["all-defaults"], "d": {"v": 1, "lt": 0, "sw": False, "ins": [["ab" * 32, 0, [], 0xFFFFFFFF, []], ["cd" * 32, 7, [], 0xFFFFFFFF, []]], "outs": [[1, TEMPLATES["p2tr"]]]}})
+    return cases
+
+
+def build_with_defaults(d):
+    """Like build_via_api but every argument whose value is the documented default is omitted, scripts that are
+    standard templates are given as the library's template classes, and the transaction is assembled from parts."""
+    from buidl.script import P2PKHScriptPubKey, P2SHScriptPubKey, P2TRScriptPubKey, P2WPKHScriptPubKey, P2WSHScriptPubKey, Script
+    from buidl.tx import Tx, TxIn, TxOut
+    from buidl.witness import Witness
+
+    klass = {"p2pkh": (P2PKHScriptPubKey, 2), "p2sh": (P2SHScriptPubKey, 1), "p2wpkh": (P2WPKHScriptPubKey, 1), "p2wsh": (P2WSHScriptPubKey, 1), "p2tr": (P2TRScriptPubKey, 1)}
+    ins = []
+    for i in d["ins"]:
+        args = [bytes.fromhex(i[0]), i[1]]
+        if i[2] or i[3] != 0xFFFFFFFF:
+            args.append(Script(items_to_cmds(i[2])) if i[2] else None)
+        if i[3] != 0xFFFFFFFF:
+            args.append(i[3])
+        ti = TxIn(*args)
+        if d["sw"] and i[4]:
+            ti.witness = Witness([item_bytes(w) for w in i[4]])
+        ins.append(ti)
+    outs = []
+    for o in d["outs"]:
+        spk = None
+        for k, (cls, pos) in klass.items():
+            if o[1] == TEMPLATES[k]:
+                spk = cls(bytes.fromhex(TEMPLATES[k][pos]))
+        outs.append(TxOut(o[0], spk if spk is not None else Script(items_to_cmds(o[1]))))
+    kw = {}
+    if d["lt"] != 0:
+        kw["locktime"] = d["lt"]
+    if d["sw"]:
+        kw["segwit"] = True
+    return Tx(d["v"], ins, outs, **kw)
+
+
+def run_entry(case):
+    from buidl.script import Script
+    from buidl.tx import Tx, TxIn, TxOut
+    from buidl.witness import Witness
+    from mc.ref import addrref
+
+    res = Res()
+    d = case["d"]
+    ab = to_abstract(d)
+    vc = {"engine": "entry", "case": case}
+    nt = (case["base"], "+".join(case["devs"]))
+    if (ab["segwit"] and not any(i["witness"] for i in ab["ins"])) or any(o["amount"] >= 2**64 for o in ab["outs"]):
+        res.skip("not a canonical encoding / amount out of range (as in codec)")
+        return res
+    ref, rid, stripped = txref.ser_tx(ab), txref.txid(ab), txref.ser_stripped(ab)
+
+    def check(name, got, exp, what):
+        if got != exp:
+            res.violation(f"C04/entry/{name}", vc, repr(got)[:200] if not isinstance(got, bytes) else got.hex()[:200], repr(exp)[:200] if not isinstance(exp, bytes) else exp.hex()[:200], what)
+        else:
+            res.ok(name, nt + (name,))
+
+    tx = attempt(build_via_api, d)
+    if isinstance(tx, Rejected):
+        res.violation("C04/entry/build", vc, repr(tx), "constructible", "API refuses to build the transaction")
+        return res
+    # serialize_legacy / serialize_segwit / serialize_witness called directly, whatever the flag says
+    check("serialize_legacy", attempt(tx.serialize_legacy), stripped, "serialize_legacy() is not the witness-stripped wire form")
+    wit_ref = b"".join(txref.ser_witness(i["witness"]) for i in ab["ins"])
+    if ab["segwit"]:
+        check("serialize_segwit", attempt(tx.serialize_segwit), ref, "serialize_segwit() is not the BIP144 wire form")
+        check("serialize_witness", attempt(tx.serialize_witness), wit_ref, "serialize_witness() is not the concatenation of the witness stacks")
+    # constructor defaults, template classes
+    t2 = attempt(build_with_defaults, d)
+    check("ctor-defaults+template-classes", attempt(lambda: t2.serialize()), ref, "transaction built with omitted default arguments / template script classes serialises differently")
+    check("ctor-defaults+template-classes-id", attempt(lambda: t2.id()), rid, "id() of that transaction")
+    # TxOut.to_address for the standard templates (address text from the independent address reference)
+    for k in ("p2pkh", "p2sh", "p2wpkh", "p2wsh", "p2tr"):
+        pos = 2 if k == "p2pkh" else 1
+        for oi, o in enumerate(d["outs"][:3]):
+            if o[1] == TEMPLATES[k]:
+                addr = addrref.address(k, bytes.fromhex(TEMPLATES[k][pos]), "mainnet")
+                check("to_address", attempt(lambda: TxOut.to_address(addr, o[0]).serialize()), txref.ser_out(ab["outs"][oi]), f"TxOut.to_address({addr}) does not serialise to the {k} output")
+    if not ab["ins"]:
+        res.skip("0 inputs: wire format ambiguous with the segwit marker; parse direction not asserted")
+        return res
+    # parse_hex (lower and upper case), clone
+    p = attempt(Tx.parse_hex, ref.hex())
+    check("parse_hex", (attempt(fields_of, p), attempt(lambda: p.serialize()), attempt(lambda: p.id())), (ab, ref, rid), "Tx.parse_hex: fields / re-serialisation / id")
+    c = attempt(tx.clone)
+    check("clone", (attempt(fields_of, c), attempt(lambda: c.serialize()), attempt(lambda: c.id())), (ab, ref, rid), "Tx.clone(): fields / serialisation / id of the copy")
+    # the parts on their own: TxIn / TxOut / Witness / Script parse + serialize, with stream positions
+    def part(name, parse, wire, ser_of, n):
+        s = BytesIO(b"\x99" * 5 + wire + b"\xee" * 4)
+        s.read(5)
+        obj = attempt(parse, s)
+        check(name, (attempt(lambda: ser_of(obj)), attempt(s.tell)), (wire, 5 + len(wire)), f"{name} #{n}: re-serialisation / stream position after parsing")
+
+    for n, i in enumerate(ab["ins"][:3]):
+        part("TxIn.parse+serialize", TxIn.parse, txref.ser_in(i), lambda o: o.serialize(), n)
+        check("TxIn.serialize", attempt(tx.tx_ins[n].serialize), txref.ser_in(i), f"TxIn.serialize of input {n}")
+        if ab["segwit"]:
+            part("Witness.parse+serialize", Witness.parse, txref.ser_witness(i["witness"]), lambda o: o.serialize(), n)
+        sc = i["script"]
+        part("Script.parse(stream)+serialize", Script.parse, txref.varbytes(sc), lambda o: o.serialize(), n)
+        check("Script.parse(raw=)", attempt(lambda: Script.parse(raw=sc).raw_serialize()), sc, "Script.parse(raw=...) then raw_serialize")
+        check("Script.parse_hex", attempt(lambda: Script.parse_hex(sc.hex()).raw_serialize()), sc, "Script.parse_hex then raw_serialize")
+    for n, o in enumerate(ab["outs"][:3]):
+        part("TxOut.parse+serialize", TxOut.parse, txref.ser_out(o), lambda x: x.serialize(), n)
+        check("TxOut.serialize", attempt(tx.tx_outs[n].serialize), txref.ser_out(o), f"TxOut.serialize of output {n}")
+    return res
+
+
+# ---------------------------------------------------------------- id / serialisation under in-place edits (E2)
+E_QUERIES = ["id", "hash", "serialize", "roundtrip"]
+E_EDITS = {  # name -> class (part of the fingerprint)
+    "in0.script.append": "script-inplace", "in0.script.pop": "script-inplace", "in1.script.setitem": "script-inplace",
+    "out0.script.append": "script-inplace", "out1.script.pop": "script-inplace",
+    "in0.wit.append": "witness-inplace", "in0.wit.insert0": "witness-inplace", "in1.wit.pop": "witness-inplace",
+    "ins.append": "vector", "ins.pop": "vector", "outs.insert0": "vector",
+    "in0.prev": "field", "in1.prev": "field", "in1.seq": "field", "in1.index": "field", "in1.script.replace": "field",
+    "out0.script.replace": "field", "out1.amount": "field", "segwit.toggle": "field",
+}  # fmt: skip
+E_STARTS = ["api", "parsed"]
+
+
+def e_model(d):
+    return {
+        "version": d["v"], "locktime": d["lt"], "segwit": d["sw"],
+        "ins": [{"prev": bytes.fromhex(i[0]), "index": i[1], "items": items_to_cmds(i[2]), "seq": i[3], "witness": [item_bytes(w) for w in i[4]]} for i in d["ins"]],
+        "outs": [{"amount": o[0], "items": items_to_cmds(o[1])} for o in d["outs"]],
+    }  # fmt: skip
+
+
+def e_abstract(m):
+    return {
+        "version": m["version"], "locktime": m["locktime"], "segwit": m["segwit"],
+        "ins": [{"prev": i["prev"], "index": i["index"], "script": txref.script_from_items(i["items"]), "seq": i["seq"], "witness": list(i["witness"])} for i in m["ins"]],
+        "outs": [{"amount": o["amount"], "script": txref.script_from_items(o["items"])} for o in m["outs"]],
+    }  # fmt: skip
+
+
+def e_apply(m, tx, e):
+    """Apply edit e to the abstract model m and, through attribute access / in-place list operations, to the library
+    object tx. Edits whose target does not exist (second input/output removed) are no-ops on both sides."""
+    from buidl.script import P2WPKHScriptPubKey, Script
+    from buidl.timelock import Sequence
+    from buidl.tx import TxIn, TxOut
+
+    two_in, two_out = len(m["ins"]) > 1, len(m["outs"]) > 1
+    if e == "in0.script.append":
+        m["ins"][0]["items"].append(0x51)
+        tx.tx_ins[0].script_sig.commands.append(0x51)
+    elif e == "in0.script.pop":
+        if m["ins"][0]["items"]:
+            m["ins"][0]["items"].pop()
+            tx.tx_ins[0].script_sig.commands.pop()
+    elif e == "in1.script.setitem":
+        if two_in:
+            it = m["ins"][1]["items"]
+            if it:
+                it[0] = b"\x07" * 80 if it[0] != b"\x07" * 80 else 0x00
+                tx.tx_ins[1].script_sig.commands[0] = it[0]
+            else:
+                it.append(b"\x08\x09")
+                tx.tx_ins[1].script_sig.commands.append(b"\x08\x09")
+    elif e == "out0.script.append":
+        m["outs"][0]["items"].append(0x75)
+        tx.tx_outs[0].script_pubkey.commands.append(0x75)
+    elif e == "out1.script.pop":
+        if two_out and m["outs"][1]["items"]:
+            m["outs"][1]["items"].pop()
+            tx.tx_outs[1].script_pubkey.commands.pop()
+    elif e == "in0.wit.append":
+        m["ins"][0]["witness"].append(b"\x07")
+        tx.tx_ins[0].witness.items.append(b"\x07")
+    elif e == "in0.wit.insert0":
+        m["ins"][0]["witness"].insert(0, b"")
+        tx.tx_ins[0].witness.items.insert(0, b"")
+    elif e == "in1.wit.pop":
+        if two_in and m["ins"][1]["witness"]:
+            m["ins"][1]["witness"].pop()
+            tx.tx_ins[1].witness.items.pop()
+    elif e == "ins.append":
+        m["ins"].append({"prev": b"\x44" * 32, "index": 3, "items": [b"\x01\x02"], "seq": 5, "witness": []})
+        tx.tx_ins.append(TxIn(b"\x44" * 32, 3, Script([b"\x01\x02"]), 5))
+    elif e == "ins.pop":
+        if two_in:
+            m["ins"].pop()
+            tx.tx_ins.pop()
+    elif e == "outs.insert0":
+        m["outs"].insert(0, {"amount": 77, "items": [0x6A, b"hi"]})
+        tx.tx_outs.insert(0, TxOut(77, Script([0x6A, b"hi"])))
+    elif e == "in0.prev":
+        p = m["ins"][0]["prev"]
+        m["ins"][0]["prev"] = bytes([p[0] ^ 1]) + p[1:]
+        tx.tx_ins[0].prev_tx = m["ins"][0]["prev"]
+    elif e == "in1.prev":
+        if two_in:
+            p = m["ins"][1]["prev"]
+            m["ins"][1]["prev"] = p[:-1] + bytes([p[-1] ^ 0x80])
+            tx.tx_ins[1].prev_tx = m["ins"][1]["prev"]
+    elif e == "in1.seq":
+        if two_in:
+            m["ins"][1]["seq"] ^= 0x10000
+            tx.tx_ins[1].sequence = Sequence(m["ins"][1]["seq"])
+    elif e == "in1.index":
+        if two_in:
+            m["ins"][1]["index"] ^= 1
+            tx.tx_ins[1].prev_index = m["ins"][1]["index"]
+    elif e == "in1.script.replace":
+        if two_in:
+            m["ins"][1]["items"] = [b"\xaa" * 5] if m["ins"][1]["items"] != [b"\xaa" * 5] else []
+            tx.tx_ins[1].script_sig = Script(list(m["ins"][1]["items"]))
+    elif e == "out0.script.replace":
+        if m["outs"][0]["items"] != [0x00, b"\x33" * 20]:
+            m["outs"][0]["items"] = [0x00, b"\x33" * 20]
+            tx.tx_outs[0].script_pubkey = P2WPKHScriptPubKey(b"\x33" * 20)
+        else:
+            m["outs"][0]["items"] = [0x51]
+            tx.tx_outs[0].script_pubkey = Script([0x51])
+    elif e == "out1.amount":
+        if two_out:
+            m["outs"][1]["amount"] ^= 0x8000000000
+            tx.tx_outs[1].amount = m["outs"][1]["amount"]
+    elif e == "segwit.toggle":
+        m["segwit"] = not m["segwit"]
+        tx.segwit = m["segwit"]
+    else:
+        raise ValueError(e)
+
+
+def gen_idedit(tier, seed):
+    depth = 3 if tier == "quick" else 4
+    events = [["q", q] for q in E_QUERIES] + [["e", e] for e in E_EDITS]
+    return [{"start": st, "segwit": sw, "prefix": [a, b], "depth": depth} for st in E_STARTS for sw in (False, True) for a in events for b in events]
+
+
+def run_idedit(case):
+    import copy
+
+    from buidl.tx import Tx
+
+    res = Res()
+    events = [["q", q] for q in E_QUERIES] + [["e", e] for e in E_EDITS]
+    base = base_segwit(0)
+    if not case["segwit"]:
+        base = dict(base, sw=False)
+        base["ins"] = [i[:4] + [[]] for i in base["ins"]]
+    tails = [[]]
+    for _ in range(case["depth"] - len(case["prefix"])):
+        tails = [t + [ev] for t in tails for ev in events]
+    hists = [case["prefix"] + t for t in tails]
+    if case.get("replay"):
+        hists = [case["replay"]]
+    for hist in hists:
+        m = e_model(copy.deepcopy(base))
+        if case["start"] == "api":
+            tx = build_via_api(copy.deepcopy(base))
+        else:
+            tx = Tx.parse(BytesIO(txref.ser_tx(e_abstract(m))))
+        ok = True
+        last_cls = "no-edit"
+        for step, (kind, what) in enumerate(hist):
+            res.transitions += 1
+            if kind == "e":
+                r = attempt(e_apply, m, tx, what)
+                if isinstance(r, Rejected):
+                    res.violation(f"C04/idedit/edit-refused/{E_EDITS[what]}", {"engine": "idedit", "case": dict({k: v for k, v in case.items() if k != "replay"}, replay=hist[: step + 1])}, repr(r), "editable", f"the edit {what} raised")
+                    ok = False
+                    break
+                last_cls = E_EDITS[what]
+                continue
+            ab = e_abstract(m)
+            has_wit = any(i["witness"] for i in ab["ins"])
+            canonical = ab["segwit"] == has_wit  # flagged and no witness: superfluous record; witness and not flagged: skip
+            if what in ("id", "hash"):
+                exp = txref.txid(ab) if what == "id" else bytes.fromhex(txref.txid(ab))
+                got = attempt(getattr(tx, what))
+            elif not canonical:
+                res.skip("serialisation of a segwit-flagged tx without witness / legacy-flagged tx with witness not asserted")
+                continue
+            elif what == "serialize":
+                exp = txref.ser_tx(ab)
+                got = attempt(tx.serialize)
+            else:  # roundtrip: serialise, parse, every field
+                exp = ab
+                got = attempt(lambda: fields_of(Tx.parse(BytesIO(tx.serialize()))))
+            if got != exp:
+                q = "id" if what in ("id", "hash") else what
+                res.violation(
+                    f"C04/idedit/{q}/{last_cls}",
+                    {"engine": "idedit", "case": dict({k: v for k, v in case.items() if k != "replay"}, replay=hist[: step + 1])},
+                    got.hex()[:160] if isinstance(got, bytes) else str(got)[:200],
+                    exp.hex()[:160] if isinstance(exp, bytes) else str(exp)[:200],
+                    f"{what} after history {hist[:step]} on a transaction obtained by {case['start']} is not the value for the current content",
+                )
+                ok = False
+                break
+        if ok:
+            res.states += 1
+            res.ok("history consistent", nontrivial=repr((case["start"], case["segwit"], hist)) if any(k == "e" for k, _ in hist) and hist[-1][0] == "q" else None)
+    return res
+
+
 def engines(tier, seed):
     def fetch_cases(t, s):
         cs = gen_fetch(t, s)
@@ -617,9 +1310,11 @@ def engines(tier, seed):
             run_codec,
             kind="E1",
             rule="2 base transactions (legacy, segwit) x every single deviation of the field alphabets (every push length 0..520, "
-            "push pairs over {0,1,74,75,76,255,256,520}^2, every non-push opcode byte, templates, counts 0..5/250..256/300, witness shapes, "
+            "push pairs over {0,1,74,75,76,255,256,520}^2, every non-push opcode byte, templates, opcode-only scripts of 252/253/254/65535/65536/70000 bytes, "
+            "counts 0..5/250..256/300, 3/253/300 inputs with a different stack each, witness shapes on every input (incl. one stack with every item length 0..599), "
             "integer boundaries); thorough adds every pair of deviations over reduced alphabets. Non-trivial = deviates from the base; "
-            "oracle = independent wire encoder, both directions, byte-exact",
+            "oracle = independent wire encoder, both directions, byte-exact; every case is also parsed at stream offset 7 followed by a second transaction "
+            "and a sentinel (stream position after each parse, both re-serialise)",
         ),
         Engine(
             "idhist",
@@ -629,12 +1324,66 @@ def engines(tier, seed):
             rule="every history of <= 3 (thorough 4) events on ONE Tx object (legacy-flagged and segwit-flagged): queries {id, hash, serialize, repr} and edits {locktime, sequence, outpoint, scriptSig via finalize_p2pkh, output amount, append/remove output, version, witness of input 0/1}; every query must equal the reference value for the current content (so the id changes with every non-witness edit, ignores witness edits, and no earlier query leaves stale state)",
         ),
         Engine(
+            "scriptseq",
+            gen_scriptseq,
+            run_scriptseq,
+            kind="E1",
+            rule="every command sequence of length 1..3 over a 32-command alphabet (15 opcodes incl. OP_0/OP_1NEGATE/OP_1/OP_16/0xff; minimal pushes of "
+            "1,2,20,32,33,75,76,255,256,520 bytes; one-byte pushes 00 01 10 81 4c 4d 4e) = 33824 scripts, each placed as scriptSig of input 0 + "
+            "scriptPubKey of output 1 and as scriptSig of input 1 + scriptPubKey of output 0 of a 2-in/2-out segwit transaction; build through the API, "
+            "serialize, id, parse (with a sentinel after the bytes: stream position), every field, re-serialise, byte-exact against mc.ref.txref",
+        ),
+        Engine(
+            "rawscript",
+            gen_rawscript,
+            run_rawscript,
+            kind="E1",
+            rule="canonically encoded transactions whose script field is an ARBITRARY byte string (coinbase scriptSig, output script, scriptSig of input 1 of a "
+            "segwit tx): every 1- and 2-byte string; for first byte in {1..5,0x4b,0x4c,0x4d,0x4e} every tail in {0,1,2,3,4c,ff}^3 and {0,1,2,ff}^5 "
+            "(truncated / non-minimal / PUSHDATA4 pushes); five standard templates x four encodings of the hash push x {exact, one byte short}; pushes of "
+            "521,522,65535,65536 bytes; thorough adds every 3-byte string starting with a push opcode 1..78. Oracle: parse accepts, re-serialises byte-exact, "
+            "id = double-SHA256 of the stripped bytes, fields, stream position; fingerprint class from an independent tokenizer "
+            "(canonical/nonminimal/truncated/oversize)",
+        ),
+        Engine(
+            "varint",
+            gen_varint,
+            run_varint,
+            kind="E1",
+            rule="encode_varint/read_varint called directly: every value 0..0x101ff, every width boundary {fc,fd,ffff,10000,2^24,2^31,2^32-1,2^32,2^33,2^48,2^56,2^63,2^64-1} "
+            "+-2, four filler values per byte length 2..8; 2^64, 2^64+1, 2^72 must be refused; encode_varstr/read_varstr for every length 0..600, 65535, 65536, "
+            "70000; decoding from a stream at offset with trailing bytes, stream position asserted; oracle txref.compact",
+        ),
+        Engine(
+            "entry",
+            gen_entry,
+            run_entry,
+            kind="E1",
+            rule="the 2 base transactions x every single deviation of the reduced field alphabets + an all-defaults transaction, through the other entry points: "
+            "serialize_legacy/serialize_segwit/serialize_witness called directly, constructor defaults omitted + template script classes, TxOut.to_address "
+            "(address text from mc.ref.addrref), Tx.parse_hex, Tx.clone, TxIn/TxOut/Witness/Script parse+serialize standalone at a stream offset with "
+            "position check, Script.parse(raw=), Script.parse_hex; oracle = the corresponding piece of the txref wire encoder",
+        ),
+        Engine(
+            "idedit",
+            gen_idedit,
+            run_idedit,
+            kind="E2",
+            rule="every history of <= 3 (thorough 4) events on ONE Tx object obtained through the API or by Tx.parse, legacy- and segwit-flagged: queries {id, hash, "
+            "serialize, serialize->parse->fields} and 19 edits: IN-PLACE list operations on script_sig.commands / script_pubkey.commands / witness.items / "
+            "tx_ins / tx_outs (append, pop, insert, item assignment), and attribute edits of prev_tx, second-input index/sequence/script, output script "
+            "(Script and P2WPKHScriptPubKey objects), second-output amount, the segwit flag; every query must equal the value the abstract model "
+            "(command lists re-encoded by txref) gives for the current content. Scripts are canonical (opcodes + minimal pushes) throughout",
+        ),
+        Engine(
             "fetch",
             fetch_cases,
             run_fetch,
             kind="E2",
             rule="fetch histories (depth 1 with every single-byte mutation of the honest answer x {1,0x80,0xff} quick / all 255 thorough; depth 2..3 over "
-            "3 ids x 4 answers x fresh flag) on one shared TxFetcher.cache with urlopen replaced by an enumerated server; invariant: every "
+            "3 ids x 4 answers x fresh flag; answers that are not the canonical encoding of what they parse to: trailing bytes, every truncation of the tail, "
+            "every compact size over-long with every longer width, blanks in the hex text, each requested by the true txid and by the double-SHA256 of exactly "
+            "the answer bytes in both byte orders, alone and before/after an honest fetch) on one shared TxFetcher.cache with urlopen replaced by an enumerated server; invariant: every "
             "call raises or returns a Tx whose id() is the requested id. Non-trivial = history containing a dishonest answer",
         ),
     ]
